@@ -513,6 +513,45 @@ func (g *genCtx) single(getkeys bool) *unit {
 	}
 }
 
+// shapePair generates two single-slot one-command units of the SAME command name and argument
+// count whose keys sit at different argument positions - EVAL_RO script 2 k1 k2 and EVAL_RO
+// script 1 k1 arg (arg is no key and hashes elsewhere) - in PRNG order.  The command is outside
+// the tool's static table: each is resolved through COMMAND GETKEYS, and what was learnt about
+// one must not be applied to the other.  Both must be committed, neither refused.
+func (g *genCtx) shapePair() (*unit, *unit) {
+	pools()
+	mk := func(two bool) *unit {
+		for {
+			u := &unit{ID: g.newID(), Class: clsGetKeys}
+			slot := g.r.Intn(ref.Slots)
+			key := g.keyFn(u.ID, func(int) int { return slot }, nil, u)
+			script := []byte("return redis.call('GET', KEYS[1])")
+			var args [][]byte
+			if two {
+				args = [][]byte{script, []byte("2"), key(), key()}
+			} else {
+				arg := []byte(fmt.Sprintf("plain-argument-%d", g.r.Intn(1<<30)))
+				if ref.HashSlot(arg) == slot {
+					continue
+				}
+				args = [][]byte{script, []byte("1"), key(), arg}
+			}
+			u.Cmds = []ucmd{{Name: "eval_ro", Args: args}}
+			g.finish(u)
+			if len(u.Slots) != 1 || u.Slots[0] != slot {
+				continue
+			}
+			u.Variant = "same-name-same-argc-other-key-layout"
+			return u
+		}
+	}
+	a, b := mk(true), mk(false)
+	if g.r.Intn(2) == 0 {
+		a, b = b, a
+	}
+	return a, b
+}
+
 // arbitrary generates a single-command, single-key unit whose key is an arbitrary brace-dense
 // byte string (C11's generators): whatever its slot is, a one-key unit is single-slot.
 func (g *genCtx) arbitrary() *unit {
